@@ -1316,7 +1316,8 @@ impl FusionVisitor for ShapeSliceToConstant {
         let x = Pattern::symbol("x");
         let starts = Pattern::const_symbol("starts");
         let ends = Pattern::const_symbol("ends");
-        Pattern::operator("Slice", [Pattern::unary_op("Shape", x), starts, ends])
+        let shape = Pattern::unary_op("Shape", x).with_name("shape");
+        Pattern::operator("Slice", [shape, starts, ends])
     }
 
     fn maybe_fuse(
@@ -1332,6 +1333,17 @@ impl FusionVisitor for ShapeSliceToConstant {
         let x_id = pat_match.node_id("x").ok_or(FusionError::NoMatch)?;
         let starts_id = pat_match.node_id("starts").ok_or(FusionError::NoMatch)?;
         let ends_id = pat_match.node_id("ends").ok_or(FusionError::NoMatch)?;
+
+        // `Shape` operators which slice their output are not supported.
+        let shape_op = pat_match
+            .node_id("shape")
+            .and_then(|id| graph.get_operator::<Shape>(id))
+            .ok_or(FusionError::NoMatch)?;
+        if shape_op.start.is_some() || shape_op.end.is_some() {
+            return Err(FusionError::CheckFailed(
+                "Shape has start or end attributes",
+            ));
+        }
 
         let x_shape = graph
             .get_node(x_id)
